@@ -55,7 +55,9 @@ fn run_sequence(acc: &mut Acc, iface: &IfaceDesc, cap: usize, ops: &[&[u8]], gro
                 m.extend_from_slice(b";:");
             }
             m.extend_from_slice(ops[i]);
-            let ends = ops[i] == b"ZZ" || ops[i] == b"ARG 1 2";
+            // every fault ends its message: after a fault an implementation may run all or
+            // none of the remaining units (C06), so nothing is placed behind one
+            let ends = !matches!(ops[i], b"SYST:ERR?" | b"SYSTEM:ERROR:NEXT?" | b"SYST:ERR:COUN?" | b"VAL?" | b"OK");
             i += 1;
             k += 1;
             if ends {
@@ -362,7 +364,7 @@ pub fn run(ctx: &Ctx) -> PropResult {
     }
     res.distinct = distinct;
     res.rule = format!(
-        "exhaustive: every sequence of {} operations over the 8-operation alphabet {:?} for each capacity in {:?}, each operation its own message on one device (all shorter sequences are prefixes); random: sequences of 6..40 operations biased towards faults, randomly grouped into compound messages (parse-level faults last in their message), a third through process; direct: the ErrorQueue trait of StaticErrorQueue<N> against the model. distinct = distinct operation sequences",
+        "exhaustive: every sequence of {} operations over the 8-operation alphabet {:?} for each capacity in {:?}, each operation its own message on one device (all shorter sequences are prefixes); random: sequences of 6..40 operations biased towards faults, randomly grouped into compound messages (a fault is always the last unit of its message), a third through process; direct: the ErrorQueue trait of StaticErrorQueue<N> against the model. distinct = distinct operation sequences",
         depth, OP_NAMES, caps
     );
     let _ = OP_ENDS_MESSAGE;
